@@ -172,3 +172,38 @@ def is_this_call(n):
 
 def call_base(n):
     return strip_targs(n.get("fn") or "")
+
+
+def reaches_call(F, fn, pred, depth=2, _seen=None):
+    """Does fn (or a draco helper / lambda it calls, up to `depth` levels) contain a call with pred(node)?"""
+    _seen = _seen if _seen is not None else set()
+    if fn.key in _seen:
+        return False
+    _seen.add(fn.key)
+    for n, b, rk, ev in fn.calls():
+        if pred(n):
+            return True
+    if depth <= 0:
+        return False
+    for n, b, rk, ev in fn.calls():
+        if n.get("k") != "call" or n.get("virt"):
+            continue
+        for t in F.targets(n):
+            if "/draco/" in t.file or t.name.startswith("verif_control::"):
+                if reaches_call(F, t, pred, depth - 1, _seen):
+                    return True
+    return False
+
+
+def blocks_calling_deep(F, fn, pred, depth=2):
+    """blocks of fn with a call satisfying pred directly or through helpers / lambdas (non-virtual, <= depth)"""
+    out = set()
+    for n, b, rk, ev in fn.calls():
+        if pred(n):
+            out.add(b)
+        elif n.get("k") == "call" and not n.get("virt"):
+            for t in F.targets(n):
+                if ("/draco/" in t.file or t.name.startswith("verif_control::")) and t.key != fn.key and \
+                        reaches_call(F, t, pred, depth - 1):
+                    out.add(b)
+    return out
